@@ -70,7 +70,7 @@ async fn check(offer: &Offer, cfg: Arc<rustls::ClientConfig>) -> &'static str {
         Err(_) => return "refused",
     };
     let mut client = tonic_health::pb::health_client::HealthClient::new(ch);
-    let r = tokio::time::timeout(Duration::from_secs(5), client.check(tonic_health::pb::HealthCheckRequest { service: String::new() })).await;
+    let r = tokio::time::timeout(Duration::from_secs(60), client.check(tonic_health::pb::HealthCheckRequest { service: String::new() })).await;
     match r {
         Ok(Ok(_)) => "ok",
         Ok(Err(_)) => "refused",
